@@ -21,6 +21,8 @@ inductive ObjStep : Stream → Stream → Prop
   | setGated (s : Stream) (b : Bool) : ObjStep s { s with gated := b }
   | setRemoved (s : Stream) : ObjStep s { s with removed := true }
   | setTags (s : Stream) (t : List Nat) : ObjStep s { s with tags := t }
+  | closeRemote (s : Stream) : ObjStep s s.closeRemoteStep
+  | setCloseBlocks (s : Stream) (b : Bool) : ObjStep s { s with closeBlocks := b }
 
 inductive ObjSteps : Stream → Stream → Prop
   | refl (s : Stream) : ObjSteps s s
@@ -203,6 +205,18 @@ theorem step_evolves (p : Pool) (st : Step) : Evolves p.objs (step p st).1.objs 
     split
     · exact Evolves.refl _
     · exact evolves_modObj _ _ _ (fun s => ObjStep.setGated s b)
+  | setCloseBlocks sid b =>
+    simp only [step, Pool.setCloseBlocks]
+    split
+    · exact Evolves.refl _
+    · exact evolves_modObj _ _ _ (fun s => ObjStep.setCloseBlocks s b)
+  | closeRemote sid =>
+    simp only [step, Pool.closeRemote]
+    split
+    · exact Evolves.refl _
+    · split
+      · exact Evolves.refl _
+      · exact evolves_modObj _ _ _ ObjStep.closeRemote
   | poolRemove sid =>
     simp only [step, Pool.poolRemove]
     split
@@ -292,6 +306,8 @@ theorem queueOk_step (s s' : Stream) (h : QueueOk s) (st : ObjStep s s') : Queue
   | setGated b => exact h
   | setRemoved => exact h
   | setTags t => exact h
+  | closeRemote => unfold Stream.closeRemoteStep; split <;> exact h
+  | setCloseBlocks b => exact h
 
 /-- delivered is a prefix of accepted; while the writer runs, accepted = delivered ++ in flight ++ buffer -/
 def FifoOk (s : Stream) : Prop :=
@@ -369,6 +385,8 @@ theorem fifoOk_step (s s' : Stream) (h : FifoOk s) (st : ObjStep s s') : FifoOk 
   | setGated b => exact ⟨h1, h2, h3⟩
   | setRemoved => exact ⟨h1, h2, h3⟩
   | setTags t => exact ⟨h1, h2, h3⟩
+  | closeRemote => unfold Stream.closeRemoteStep; split <;> exact ⟨h1, h2, h3⟩
+  | setCloseBlocks b => exact ⟨h1, h2, h3⟩
 
 /-- once `closed` is set it stays set, nothing more is accepted and nothing more is delivered -/
 theorem closed_frozen (s s' : Stream) (hc : s.closed = true) (st : ObjStep s s') :
@@ -392,6 +410,8 @@ theorem closed_frozen (s s' : Stream) (hc : s.closed = true) (st : ObjStep s s')
   | setGated b => exact ⟨hc, rfl, rfl⟩
   | setRemoved => exact ⟨hc, rfl, rfl⟩
   | setTags t => exact ⟨hc, rfl, rfl⟩
+  | closeRemote => unfold Stream.closeRemoteStep; split <;> exact ⟨hc, rfl, rfl⟩
+  | setCloseBlocks b => exact ⟨hc, rfl, rfl⟩
 
 /-- identity, peer and capacity of an object never change -/
 theorem objStep_static (s s' : Stream) (st : ObjStep s s') :
@@ -416,6 +436,8 @@ theorem objStep_static (s s' : Stream) (st : ObjStep s s') :
   | setGated b => simp
   | setRemoved => simp
   | setTags t => simp
+  | closeRemote => unfold Stream.closeRemoteStep; split <;> simp
+  | setCloseBlocks b => simp
 
 end AnySync.StreamPool
 
@@ -667,6 +689,9 @@ theorem static_ctxClose : Static Stream.ctxCloseStep := by
 
 theorem static_writerExit : Static Stream.writerExitStep := by
   intro s; unfold Stream.writerExitStep; split <;> simp
+
+theorem static_closeRemote : Static Stream.closeRemoteStep := by
+  intro s; unfold Stream.closeRemoteStep; split <;> simp
 
 /-- every id listed in an index belongs to `streams` -/
 theorem IdxInv.byPeer_mem {p : Pool} (h : IdxInv p) {k sid : Nat} (hm : sid ∈ p.byPeer.get k) :
@@ -1112,6 +1137,18 @@ theorem IdxInv.step {p : Pool} (h : IdxInv p) (st : Step) : IdxInv (step p st).1
     split
     · exact h
     · exact h.static sid (fun s => { s with gated := b }) (fun s => ⟨rfl, rfl, rfl, rfl⟩) _ rfl rfl rfl rfl rfl rfl rfl
+  | setCloseBlocks sid b =>
+    simp only [AnySync.StreamPool.step, Pool.setCloseBlocks]
+    split
+    · exact h
+    · exact h.static sid (fun s => { s with closeBlocks := b }) (fun s => ⟨rfl, rfl, rfl, rfl⟩) _ rfl rfl rfl rfl rfl rfl rfl
+  | closeRemote sid =>
+    simp only [AnySync.StreamPool.step, Pool.closeRemote]
+    split
+    · exact h
+    · split
+      · exact h
+      · exact h.static sid _ static_closeRemote _ rfl rfl rfl rfl rfl rfl rfl
   | poolRemove sid => exact h.poolRemove sid
   | dialTake =>
     simp only [AnySync.StreamPool.step, Pool.dialTake]
@@ -1239,6 +1276,13 @@ theorem foreign_step_frame (p : Pool) (st : Step) (a b : Nat) (hs : st.subject =
   case setGated v =>
     simp only [step, Pool.setGated]; split; · rfl
     exact getObj_modObj_other _ _ _ (fun s => { s with gated := v }) (fun s => rfl) hab
+  case setCloseBlocks v =>
+    simp only [step, Pool.setCloseBlocks]; split; · rfl
+    exact getObj_modObj_other _ _ _ (fun s => { s with closeBlocks := v }) (fun s => rfl) hab
+  case closeRemote =>
+    simp only [step, Pool.closeRemote]; split; · rfl
+    split; · rfl
+    exact getObj_modObj_other _ _ _ _ (fun s => (static_closeRemote s).1) hab
   case readClose =>
     simp only [step, Pool.readClose]; split; · rfl
     exact getObj_modObj_other _ _ _ (fun s => { s with closed := true }) (fun s => rfl) hab
@@ -1265,6 +1309,9 @@ theorem writer_step_keeps_pool (p : Pool) (st : Step) (b : Nat) (hw : st.isWrite
                      split <;> simp
   case cancel => simp only [step, Pool.cancel]; split <;> simp
   case setGated => simp only [step, Pool.setGated]; split <;> simp
+  case setCloseBlocks => simp only [step, Pool.setCloseBlocks]; split <;> simp
+  case closeRemote => simp only [step, Pool.closeRemote]; split; · simp
+                      split <;> simp
 
 /-- Fallback between streams (write to the next one when the previous is full) only happens inside
 one peer: every group snapshotted by `SendById` consists of streams of a single peer, and `Broadcast`
